@@ -231,6 +231,15 @@ int main(int argc, char **argv)
                                                 int ml = 2 * ds + 3;
                                                 if (ti == 0) { if (all_texts("0aFg", 4, ml > 8 ? 8 : ml)) goto out; }
                                                 else { static const char A[] = {'"', '\\', 'n', 'a', ',', (char)0x80}; if (all_texts(A, 6, SW.tier ? (ml > 8 ? 8 : ml) : (ml > 6 ? 6 : ml))) goto out; }
+                                                /* NUL and '?' inside the argument text (a NUL ends the text the variable parser sees; '?' is only special as the whole text) */
+                                                if (ds == 1) {
+                                                        static const char B[] = {0, '?', '"', 'a', 'A', '1'};
+                                                        if (all_texts(B, 6, 4)) goto out;
+                                                        /* the same as the only argument of a one-variable command (the text reaches the end of the line) */
+                                                        build(t, ds, (cat_var_access)acc, 1, 0, (idx & 1));
+                                                        snprintf(SW.extra, sizeof SW.extra, "type=%s data_size=%d access=%d single variable, texts with NUL and '?'", ti ? "string" : "hexbuf", ds, acc);
+                                                        if (all_texts(B, 6, 4)) goto out;
+                                                }
                                         }
                                 }
         }
